@@ -144,6 +144,8 @@ pub struct SubReport { pub name: String, pub stats: SubStats }
 
 type RunFn = Box<dyn Fn(&RunCfg, &str) -> SubStats + Send + Sync>;
 type ReplayFn = Box<dyn Fn(&Value) -> Result<Verdict, String> + Send + Sync>;
+/// decode fuzzer bytes into a case (hand-written decoder mirroring the sub-check's generator) and judge it with the sub-check's oracle
+pub type FuzzFn = Box<dyn Fn(&[u8], Tier) -> Option<(Value, Verdict)> + Send + Sync>;
 
 thread_local! { static SHRINK_ITERS: std::cell::Cell<u32> = const { std::cell::Cell::new(4000) }; }
 
@@ -171,6 +173,7 @@ pub struct Sub {
     pub name: &'static str,
     pub run: RunFn,
     pub replay: ReplayFn,
+    pub fuzz: Option<FuzzFn>,
 }
 
 fn digest(v: &str) -> u64 {
@@ -251,7 +254,45 @@ pub fn shorten(v: Value) -> Value {
     }
 }
 
+/// One saved fuzzer input (regression tier of engine E3).
+#[derive(Clone, Debug, Serialize, serde::Deserialize)]
+pub struct CorpusCase { pub file: String, pub hex: String }
+pub fn corpus_dir(target: &str) -> String { format!("{}/{target}", std::env::var("HV_CORPUS_ROOT").unwrap_or_else(|_| "/verif/corpus".into())) }
+fn unhex(h: &str) -> Vec<u8> { (0..h.len() / 2).filter_map(|i| u8::from_str_radix(&h[2 * i..2 * i + 2], 16).ok()).collect() }
+
 impl Sub {
+    /// Replay of the saved fuzz corpus of `target` through a decoder and the sub-check's oracle (no fuzzer needed).
+    pub fn corpus<C, D, O>(name: &'static str, target: &'static str, decode: D, oracle: O) -> Sub
+    where C: Serialize + 'static, D: Fn(&mut crate::fuzz::Src) -> Option<C> + Send + Sync + 'static, O: Fn(&C) -> Verdict + Send + Sync + 'static {
+        Sub::enumerate(name, move |_| {
+            let mut v = vec![];
+            if let Ok(rd) = std::fs::read_dir(corpus_dir(target)) {
+                let mut names: Vec<_> = rd.filter_map(|e| e.ok()).map(|e| e.path()).filter(|p| p.is_file()).collect();
+                names.sort();
+                for p in names { if let Ok(b) = std::fs::read(&p) { v.push(CorpusCase { file: p.file_name().map(|f| f.to_string_lossy().to_string()).unwrap_or_default(), hex: b.iter().map(|x| format!("{x:02x}")).collect() }); } }
+            }
+            v
+        }, move |c: &CorpusCase| {
+            let bytes = unhex(&c.hex);
+            let mut src = crate::fuzz::Src::new(&bytes);
+            match catch(|| decode(&mut src)) {
+                Ok(Some(case)) => match judge(&oracle, &case) { Verdict::Pass(i) => Verdict::Pass(Info { nontrivial: true, labels: i.labels, evals: i.evals }), f => f },
+                _ => pass(false),
+            }
+        })
+    }
+    /// Attach a byte decoder for the coverage-guided engine (E3): `decode` must produce only cases the sub-check's
+    /// strategy can produce (same mapping functions), `oracle` is the sub-check's oracle.
+    pub fn fuzzable<C, D, O>(mut self, decode: D, oracle: O) -> Sub
+    where C: Serialize + 'static, D: Fn(&mut crate::fuzz::Src) -> Option<C> + Send + Sync + 'static, O: Fn(&C) -> Verdict + Send + Sync + 'static {
+        self.fuzz = Some(Box::new(move |data, _tier| {
+            let mut src = crate::fuzz::Src::new(data);
+            let c = catch(|| decode(&mut src)).ok()??;
+            let v = judge(&oracle, &c);
+            Some((serde_json::to_value(&c).unwrap_or(Value::Null), v))
+        }));
+        self
+    }
     /// Random search with shrinking. `strategy(tier)` is built once per shard.
     pub fn prop<C, S, O>(name: &'static str, cases_quick: u64, cases_thorough: u64, min_nontrivial: f64, strategy: S, oracle: O) -> Sub
     where C: Serialize + DeserializeOwned + Clone + std::fmt::Debug + 'static,
@@ -260,6 +301,7 @@ impl Sub {
     {
         let oracle = Arc::new(oracle);
         let o2 = oracle.clone();
+        let strategy = Arc::new(strategy);
         let run: RunFn = Box::new(move |cfg, prop| {
             let t0 = std::time::Instant::now();
             let total = ((cfg.tier.pick(cases_quick, cases_thorough) as f64) * cfg.scale).ceil() as u64;
@@ -269,7 +311,7 @@ impl Sub {
                 for shard in 0..shards {
                     let per = total / shards + if shard < total % shards { 1 } else { 0 };
                     if per == 0 { continue; }
-                    let sh = &sh; let oracle = &oracle; let strategy = &strategy;
+                    let sh = &sh; let oracle = &oracle; let strategy = &*strategy;
                     std::thread::Builder::new().stack_size(64 << 20).spawn_scoped(scope, move || {
                         if name.ends_with("_timed") { SHRINK_ITERS.with(|c| c.set(150)); }
                         let seed = derive_seed(cfg.seed, &[prop, name], shard);
@@ -315,7 +357,7 @@ impl Sub {
             let c: C = serde_json::from_value(v.clone()).map_err(|e| format!("cannot decode case: {e}"))?;
             Ok(judge(&*o2, &c))
         });
-        Sub { name, run, replay }
+        Sub { name, run, replay, fuzz: None }
     }
 
     /// Exhaustive enumeration of a finite space (no shrinking; the first failures are reported).
@@ -358,7 +400,7 @@ impl Sub {
             let c: C = serde_json::from_value(v.clone()).map_err(|e| format!("cannot decode case: {e}"))?;
             Ok(judge(&*o2, &c))
         });
-        Sub { name, run, replay }
+        Sub { name, run, replay, fuzz: None }
     }
 }
 
